@@ -19,8 +19,8 @@ ASSUMPTIONS = [
     'transitions are observed through ENTERED_STATE callbacks while the process is open and through state sampling after every loop callback afterwards',
 ]
 BUDGET = {
-    'quick': {'enum': ['k1', 'k2', 'hooks', 'wc', 'tasks', 'observers', 'closed', 'extsoon', 'listener'], 'hyp': 4000, 'shards': 8},
-    'thorough': {'enum': ['k1', 'k2', 'k3', 'k4w', 'hooks', 'wc', 'tasks', 'observers', 'closed', 'extsoon', 'listener'], 'hyp': 160000, 'shards': 16},
+    'quick': {'enum': ['k1', 'k2', 'hooks', 'wc', 'tasks', 'observers', 'closed', 'extsoon', 'listener', 'lsave'], 'hyp': 4000, 'shards': 8},
+    'thorough': {'enum': ['k1', 'k2', 'k3', 'k4w', 'hooks', 'wc', 'tasks', 'observers', 'closed', 'extsoon', 'listener', 'lsave'], 'hyp': 160000, 'shards': 16},
 }
 
 ALPHABET = [['pause', 'p'], ['play'], ['kill', 'kt'], ['resume', 1], ['fail', '']]  # (an exception with an empty message is an exception)
@@ -109,6 +109,16 @@ def enumerate_cases(tier, scope):
                         continue  # (closing a live process takes the observers off it: scope `closed`)
                     for sched in ([], [['tick', 1], ['kill', 'k']], [['tick', 2], ['pause', 'p']], [['tick', 1], ['fail', 'f']]):
                         yield {'program': gen.CATALOGUE[name], 'schedule': sched, 'listener': [{'on': on, 'occ': 1, 'do': do}]}
+        return
+    if scope == 'lsave':
+        # a listener checkpoints the process from inside its notifications; the process may end with an exception that
+        # cannot be serialised, so that the checkpoint of the terminal state fails (in the listener)
+        unsavable = {'steps': [gen.S([['yield'], ['out', 'x', 1]], ['wait', 1, None, None], True), gen.S([], ['raise', {'__lock__': 1}])]}
+        for prog in (unsavable, gen.CATALOGUE['wait1'], gen.CATALOGUE['failing'], gen.CATALOGUE['selfkill'], gen.CATALOGUE['chain']):
+            for on in ('on_process_finished', 'on_process_killed', 'on_process_excepted', 'on_process_running', 'on_process_waiting', 'on_process_paused'):
+                for occ in (1, 2):
+                    for sched in ([], [['tick', 1], ['kill', 'k']], [['tick', 2], ['pause', 'p']], [['tick', 1], ['fail', 'f']], [['tick', 2], ['resume', 1]]):
+                        yield {'program': prog, 'schedule': sched, 'listener': [{'on': on, 'occ': occ, 'do': ['checkpoint']}]}
         return
     if scope == 'hooks':
         for name in ('wait1', 'chain', 'async2', 'selfkill', 'failing', 'sync3'):
